@@ -293,10 +293,27 @@ def main():
             nviol += 1
             R.violation({'kind': 'a route out of a valid value does not give back its text', 'type': t, 'input_hex': b.hex(),
                          'failing_routes': o}, no_input=False)
+    # conversions between the eight reference types are construction routes too (From / TryFrom / as_* / into_* / try_into_*): each
+    # must succeed exactly when the target validator accepts the text and must keep the text (judged as in C13)
+    import c13
+    clines = []; cmeta = []
+    for x in c13.DELIM_RICH + ['', 'a', 's:', 's:a', '//h', 'a/b:c', './a:b', 'é', 's:é', '?é', '%41:b', 'a%3Ab']:
+        clines.append('conv\t%s' % hexs(x)); cmeta.append(x.encode())
+    for t in ('uri_reference', 'iri_reference'):
+        for b in sample_strings(dfas[t], random.Random(rnd.random()), 1500 if thorough else 250):
+            clines.append('conv\t%s' % hexs(b)); cmeta.append(b)
+    couts = run_lines(os.path.join(cdir, 'harness'), clines)
+    for b, line, io in zip(cmeta, clines, couts):
+        pr, V = c13.conv_problems(dfas, b, io)
+        if pr and nviol < 40:
+            nviol += 1
+            R.violation({'kind': 'a conversion between reference types constructs a value its grammar rejects, or refuses one it accepts', 'input': b.decode('utf-8', 'replace'),
+                         'problems': pr[:4], 'replay': "printf '%s\\n' | %s" % (line.replace('\t', '\\t'), os.path.join(cdir, 'harness'))}, no_input=False)
+    R.extra['conversion_inputs'] = len(clines)
     R.cov['checker_cmd'] = 'coqc -Q /verif/coq V -Q <cache>/gen G C01_<type>.v  (20 files, each: apply check_sound; vm_cast_no_check (eq_refl true); Print Assumptions)'
     R.cov['trusted_base'] = ['Coq 8.16.1 kernel + vm_compute', 'tools/expand2dfa.py + rustc -Zunpretty=expanded', 'coq/Abnf.v (RFC transcription)',
                              'Print Assumptions: Closed under the global context for all 20 theorems' if len(proved) == len(RULES) else 'some theorems failed']
-    R.cov['evaluations'] = len(lines) + len(olines)
+    R.cov['evaluations'] = len(lines) + len(olines) + len(clines)
     R.cov['distinct_nontrivial'] = len(distinct)
     R.cov['rule'] = ('strings = random walks through each translated table to an accepting state (length targets 0..80, range bounds preferred), '
                      'single-token edits at range boundaries, ill-formed UTF-8 insertions; distinct = distinct (type, byte string); all are non-trivial '
